@@ -440,6 +440,20 @@ class Check:
         return 1 if self.violations else 0
 
 
+def load_scale():
+    """how much slower than an idle machine things are right now: 1 on an idle machine, up to 4 when the run queue is
+    several times the number of cores.  Quiet periods and time bounds of the timed checks are stretched by it
+    (a loaded machine must not make a check report that something "never happened")."""
+    forced = os.environ.get("VERIF_TIME_SCALE")
+    if forced:
+        return max(1.0, float(forced))
+    try:
+        per_core = os.getloadavg()[0] / max(1, os.cpu_count() or 1)
+    except OSError:
+        return 1.0
+    return 1.0 if per_core < 0.75 else min(4.0, 1.0 + per_core)
+
+
 # --------------------------------------------------------------------------------------
 # Generic driver for "pure" properties (hand model + correspondence + oracle)
 # --------------------------------------------------------------------------------------
